@@ -102,4 +102,24 @@ theorem pipeline_solver {solver : LinModel (Ext K) → MlpOutcome (Ext K)} {m : 
     | err v' => simp only [hw, Pipeline.Outcome.solver.injEq] at h; subst h; exact ⟨lm', rfl, by simp [oneShot, hc, hw]⟩
     | panic => simp [hw] at h
 
+/-- whenever the one-function model of the whole default path (`Pipeline.solveProg`) gets past the front end, its answer
+is the answer of `Pipeline.solveUsingAuto` on the transformed model. -/
+theorem solveProg_compiled {α : Type} [Arith α] {p : Pre.ProgM} {tc : Bool} {tol : α} {maxSteps : Nat}
+    {mlp : LinModel α → MlpOutcome α} {o : Pipeline.Outcome α}
+    (h : Pipeline.solveProg p tc tol maxSteps mlp = .compiled o) :
+    p.arityOk = true ∧ tc = true ∧
+    ∃ m : Model α, (Pre.transformCore p : Except Pre.IErr (Model α)) = .ok m ∧
+      Pipeline.solveUsingAuto m tol maxSteps mlp = o := by
+  unfold Pipeline.solveProg at h
+  by_cases ha : p.arityOk = true
+  · by_cases ht : tc = true
+    · simp only [ha, ht, Bool.not_true, Bool.false_eq_true, if_false] at h
+      cases hm : (Pre.transformCore p : Except Pre.IErr (Model α)) with
+      | error e => simp [hm] at h
+      | ok m =>
+        simp only [hm, Pipeline.TextOutcome.compiled.injEq] at h
+        exact ⟨ha, ht, m, rfl, h⟩
+    · simp [ha, ht] at h
+  · simp [ha] at h
+
 end Rooc.Compose
